@@ -439,6 +439,10 @@ func (p *Parser) parseUseStmt() ast.Statement {
 		Value: p.parseAliasPathShortcut("layouts"),
 	}
 
+	if !p.expectPeek(token.RPAREN) { // move to ")"
+		return nil
+	}
+
 	p.useStmt = stmt
 
 	return stmt
@@ -457,6 +461,10 @@ func (p *Parser) parseBreakIfStmt() ast.Statement {
 
 	stmt.Condition = p.parseExpression(LOWEST)
 
+	if !p.expectPeek(token.RPAREN) { // move to ")"
+		return nil
+	}
+
 	return stmt
 }
 
@@ -472,6 +480,10 @@ func (p *Parser) parseContinueIfStmt() ast.Statement {
 	p.nextToken() // skip "("
 
 	stmt.Condition = p.parseExpression(LOWEST)
+
+	if !p.expectPeek(token.RPAREN) { // move to ")"
+		return nil
+	}
 
 	return stmt
 }
@@ -510,16 +522,31 @@ func (p *Parser) parseComponentStmt() ast.Statement {
 		return nil
 	}
 
+	hasSlots := false
+
 	if p.peekTokenIs(token.SLOT) {
 		p.nextToken() // skip ")"
 		stmt.Slots = p.parseSlots()
+		hasSlots = true
 	} else if p.peekTokenIs(token.HTML) && isWhitespace(p.peekToken.Literal) {
 		p.nextToken() // skip ")"
 
 		if p.peekTokenIs(token.SLOT) {
 			p.nextToken() // skip whitespace
 			stmt.Slots = p.parseSlots()
+			hasSlots = true
 		}
+	}
+
+	// slots are followed by the "@end" of the component
+	if hasSlots && !p.curTokenIs(token.END) {
+		p.newError(
+			p.curToken.ErrorLine(),
+			fail.ErrWrongNextToken,
+			token.String(token.END),
+			token.String(p.curToken.Type),
+		)
+		return nil
 	}
 
 	p.components = append(p.components, stmt)
@@ -615,7 +642,10 @@ func (p *Parser) parseSlots() []*ast.SlotStmt {
 			Body:  p.parseBlockStmt(),
 		})
 
-		p.nextToken() // skip block statement
+		if !p.expectPeek(token.END) { // move to "@end"
+			return nil
+		}
+
 		p.nextToken() // skip "@end"
 
 		for p.curTokenIs(token.HTML) {
@@ -640,6 +670,10 @@ func (p *Parser) parseReserveStmt() ast.Statement {
 	stmt.Name = &ast.StringLiteral{
 		Token: p.curToken,
 		Value: p.curToken.Literal,
+	}
+
+	if !p.expectPeek(token.RPAREN) { // move to ")"
+		return nil
 	}
 
 	p.reserves[stmt.Name.Value] = stmt
@@ -675,6 +709,10 @@ func (p *Parser) parseInsertStmt() ast.Statement {
 		p.nextToken() // skip ","
 		stmt.Argument = p.parseExpression(LOWEST)
 
+		if !p.expectPeek(token.RPAREN) { // move to ")"
+			return nil
+		}
+
 		p.inserts[stmt.Name.Value] = stmt
 		hasBody = false
 
@@ -687,6 +725,10 @@ func (p *Parser) parseInsertStmt() ast.Statement {
 
 	if hasBody {
 		stmt.Block = p.parseBlockStmt()
+
+		if !p.expectPeek(token.END) { // move to "@end"
+			return nil
+		}
 	}
 
 	p.inserts[stmt.Name.Value] = stmt
